@@ -435,6 +435,20 @@ func init() {
 		return nilErr
 	}
 	intrinsics["*os.File.Close"] = intrinsics["(*os.File).Close"]
+	intrinsics["(*os.File).Stat"] = func(x *Exec, a []Value) Value {
+		f := a[0].(*FileObj)
+		if f == nil {
+			return Tuple{Iface{}, x.newErrS("invalid argument", "EINVAL")}
+		}
+		name := f.path
+		for i := len(f.path.b) - 1; i >= 0; i-- {
+			if t := f.path.b[i]; t.op == OpConst && t.k == '/' {
+				name = Str{f.path.b[i+1:]}
+				break
+			}
+		}
+		return Tuple{Iface{t: errorType, v: &FileInfoObj{name: name, isDir: f.node.dir, size: len(f.node.data)}}, nilErr}
+	}
 	intrinsics["*os.File.Read"] = func(x *Exec, a []Value) Value {
 		f := a[0].(*FileObj)
 		dst := a[1].(Slice)
